@@ -105,4 +105,6 @@ int lib_lzma_code(struct lzma_stream_s *s, int action)
   if (action == 3 && s->avail_in == 0 && nondet_bool()) { g_z_finished = 1; return 1; }
   return 0;
 }
+int lib_lzma_easy_encoder(struct lzma_stream_s *s, unsigned int preset, int check)
+{ if (g_exc) return 0; if (nondet_bool()) return 5; g_z_open = 1; g_z_finished = 0; g_z_in = 0; g_z_out = 0; g_fwd = 0; s->internal = (void *)1; return 0; }
 void lib_lzma_end(struct lzma_stream_s *s) { if (g_exc) return; __CPROVER_assert(g_z_open, "lzma_end on an open stream"); g_z_open = 0; s->internal = 0; }
